@@ -185,6 +185,10 @@ Definition item16_wf (e : elements) (it : item16) : bool :=
 
 Definition wf_elements16 (t : template16) (e : elements) : bool := forallb (item16_wf e) t.
 
+(* every user line, after the substitution of the assignment's values and the defaults, has no tag left *)
+Definition user_lines_closed (a : list (string * string)) (t : template16) : bool :=
+  forallb (fun it => match it with UserLine l => no3 (ref_line a l) | _ => true end) t.
+
 (* no line with user tags outside blocks (then the result does not depend on the user-tag assignment) *)
 Definition no_user_lines (t : template16) : bool := forallb (fun it => match it with UserLine _ => false | _ => true end) t.
 
